@@ -23,6 +23,10 @@ fixed=[
 ("C11","1f61752","PoissonGAM.fit(list y): AttributeError"),
 ("C11","293fa99","gridsearch on an unfitted model with list X: AttributeError; X used before validation"),
 ("C16","8d98a70","te(f(a), f(b), by=k) (all marginals of order 0): build_columns raised UFuncTypeError (int basis *= float by) instead of multiplying the rows by the by-variable"),
+("C02","c103169","partial_dependence(term) on the default grid raised ValueError (categorical domain of *other* factor terms checked on the zero-filled grid) whenever the model has a factor term whose codes do not include 0"),
+("C15","8a235dd","two unfitted models built from one term expression shared the term objects: a.set_params(lam=...) changed b (and the expression), b.fit differed from a fresh model"),
+("C15","fde4848","after gridsearch(keep_best=True) self and the returned winner shared terms / distribution / logs: changing self changed the winner's predictions"),
+("C20","0a01318","user callback hook with a local variable rejected (co_varnames includes locals): AssertionError 'CallBack cannot reference'"),
 ("C19","6a443b0","PoissonGAM.gridsearch with exposure/weights != 1: GAM.gridsearch passed weights positionally, PoissonGAM.fit took them as exposure (rates divided twice, candidates unweighted)"),
 ("C10","6a443b0","gridsearch candidate scores of a PoissonGAM with weights differed from an independent fit with those hyper-parameters (same positional-argument defect)"),
 ("C11","c2e8abf","fit_quantile on a fitted model returned without validating y when already within tol"),
@@ -31,6 +35,15 @@ kf={"comment":"known findings (status=known: reported as KNOWN-FINDING, exit 0) 
 "findings":[{"id":"C04-periodic-penalty","property":"C04","status":"known",
  "selector":{"penalty":"periodic","nd_digest":tab},
  "what":"penalties.periodic(n, coef, derivative=d) is not the cyclic difference penalty: e.g. periodic(2, None, derivative=1) = [[4,4],[4,4]] gives c'Pc = 16 for the constant c = (1,1) (and ValueError 'inconsistent shapes' for 1 < n < d+... small n). Selector = the exact wrong matrix / exception per (n,d) of the check grids. Not repaired: the cyclic form changes fitted values under the default lam, and pygam/tests/test_terms.py::test_cyclic_p_spline_custom_period asserts allclose(predict, square wave) for 4 cyclic order-0 functions, which only the accidental matrix (penalising just c0-c1+c2-c3) satisfies."}]
++[
+ {"id":"C10-fit-intercept-grid-ignored","property":"C10","status":"known","selector":{"known":"C10-fit-intercept-grid-ignored"},
+  "what":"gridsearch over fit_intercept is ignored once the intercept term is in the term list: LinearGAM(s(0, n_splines=6)).gridsearch(X, y, fit_intercept=[True, False]) fits two identical 7-coefficient models (same GCV), an independent LinearGAM(..., fit_intercept=False) has 6 coefficients and another GCV. Not repaired: the auto-added intercept cannot be told from a user-specified one without a design change."},
+ {"id":"C10-joint-grid-sequential-validation","property":"C10","status":"known","selector":{"known":"C10-joint-grid-sequential-validation"},
+  "what":"joint grid over n_splines x spline_order: candidates whose hyper-parameters are valid together but invalid half-way through the sequential set_params (e.g. n_splines=3 with the old spline_order=3) raise ValueError and are skipped, depending on keyword order: LinearGAM(s(0, n_splines=6, spline_order=3)).gridsearch(X, y, n_splines=[3, 6], spline_order=[1, 3]) fits only (6,1), (6,3). Not repaired: needs deferred validation across a multi-parameter assignment."},
+ {"id":"C10-warm-start-divergence-skips-candidate","property":"C10","status":"known","selector":{"known":"C10-warm-start-divergence-skips-candidate"},
+  "what":"a valid candidate warm-started from the previous candidate's coefficients can diverge ('PIRLS optimization has diverged') and is then skipped although a cold fit succeeds (LogisticGAM, spline_order grid [5, 0, 9, 1]): the set of fitted candidates depends on grid order. Not repaired: needs a cold-start retry policy."},
+ {"id":"C10-plural-setter-attributeerror","property":"C10","status":"known","selector":{"known":"C10-plural-setter-attributeerror"},
+  "what":"a grid over a plural parameter that some term does not have (LinearGAM(s(0) + l(1)).gridsearch(X, y, n_splines=[5, 7])) raises AttributeError from MetaTermMixin.__setattr__ (getattr(term, name) without default) instead of distributing the values to the terms that have the parameter. Not repaired: which terms should receive values is a design decision."}]
 +[{"property":p,"status":"fixed","commit":c,"what":w} for p,c,w in fixed]}
 json.dump(kf,open('known_findings.json','w'),indent=1)
 print(len(tab), 'digests;', len(fixed), 'fixed entries')
